@@ -28,19 +28,11 @@ def search(prop, unit, failure, budget_s=180):
     repo = os.environ.get('VERIF_REPO', '/repo')
     if not os.path.exists(os.path.join(repo, 'Cargo.toml')):
         return None
-    tmp = tempfile.mkdtemp(prefix='vf-replay-')
+    from . import bounded
+    exe, why = bounded.build(repo)
+    if exe is None:
+        return None
     try:
-        shutil.copytree(os.path.join(VERIF, 'replay', 'src'), os.path.join(tmp, 'src'))
-        man = open(os.path.join(VERIF, 'replay', 'Cargo.toml')).read().replace('path = "/repo"', 'path = "%s"' % repo)
-        open(os.path.join(tmp, 'Cargo.toml'), 'w').write(man)
-        lock = os.path.join(repo, 'Cargo.lock')
-        if os.path.exists(lock):
-            shutil.copy(lock, os.path.join(tmp, 'Cargo.lock'))
-        env = dict(os.environ, CARGO_NET_OFFLINE='true', CARGO_TARGET_DIR=os.path.join(VERIF, 'replay', 'target'))
-        b = subprocess.run(['cargo', 'build', '--offline', '--quiet'], cwd=tmp, env=env, capture_output=True, text=True, timeout=budget_s)
-        if b.returncode != 0:
-            return None
-        exe = os.path.join(VERIF, 'replay', 'target', 'debug', 'replay')
         for mode in modes:
             try:
                 r = subprocess.run([exe, mode], capture_output=True, text=True, timeout=60)
@@ -56,4 +48,7 @@ def search(prop, unit, failure, budget_s=180):
                     return hit
         return None
     finally:
-        shutil.rmtree(tmp, ignore_errors=True)
+        try:
+            os.remove(exe)
+        except OSError:
+            pass
